@@ -22,6 +22,9 @@ Mechanism: `validForData`, `aligned` (lengths, trimming, stretching, transpositi
 `subpixelOffset` (effective offsets, overlap, zero canvas, block placement), `krisskross`,
 `getLayer`, `getFlat`, `srrGet`, `SrrConfig.make / apply (setters) / toArray / fromArray / toRec / fromRec`.
 Specification: `voxel`, the closed geometric formula of one output voxel; `validSpec`; `layerSpec`.
+The object between two reconstructions: `Stack` (fields `(name, dtype)` + layers of pixel tuples), `StackOp`
+(`SRRLaser.rename / remove / add`, `laser.data` assigned / appended / popped / written into), `Stack.apply`.
+The model has no state besides the stack and the configuration: a reconstruction is a function of the two.
 -/
 namespace Pew
 
